@@ -28,6 +28,7 @@ T0 = 1700000000          # base timestamp (s) of every point: one shard group, o
 WRITE_BUDGET = 120.0     # s: a write retried this long with a majority up must have been acknowledged
 QUERY_BUDGET = 120.0
 GRACE = 5.0              # s after a restarted store is registered alive and its partition is online: catch-up window
+GRACE_ELECT = 12.0       # s after another store was killed while this one was still catching up (a new raft leader must be elected first)
 SERIES = {1: ["s1", "t1"], 2: ["s2", "t2"], 3: ["s3", "t3"]}     # model cell -> series of the batch
 
 
@@ -65,7 +66,7 @@ def short(s):
 
 
 def gen_schedules(n, seed):
-    r = vlib.run_tlc("ReplicationMC", "Replication.sim.cfg", simulate=max(200, 12 * n), depth=400, seed=seed, timeout=600)
+    r = vlib.run_tlc("ReplicationMC", "Replication.sim.cfg", simulate=max(300, 25 * n), depth=400, seed=seed, timeout=600)
     if r["error"] or r["violated"] or r.get("timeout"):
         raise vlib.Infra(f"schedule generation failed: {r['error']} {r['violated']}\n" + r["out"][-2000:])
     seen, out = set(), []
@@ -174,6 +175,8 @@ class Driver:
         stop = threading.Event()
         down = set()
         monitors = []
+        outage = [(0.0, 0.0)]
+        lastkill = [0.0]
         info = {"sid": sid, "mst": mst, "patient": patient, "kills": [], "died": None}
 
         def add(**e):
@@ -265,8 +268,10 @@ class Driver:
                 if time.time() - tb > 180:
                     return
                 time.sleep(0.5)
-            te = time.time() + GRACE
-            while time.time() < te:
+            # caught up = GRACE after it is back, and - catching up needs a raft leader to catch up from - GRACE_ELECT after
+            # the latest kill of another store (election timeout 10 ticks x 400 ms, randomised up to twice that)
+            t_on = time.time()
+            while time.time() < max(t_on + GRACE, lastkill[0] + GRACE_ELECT):
                 if self.gen[i] != g:
                     return
                 time.sleep(0.1)
@@ -288,13 +293,19 @@ class Driver:
                 i = self.rnd.choice([s for s in (1, 2, 3) if s != ms])
             down.add(i)
             self.gen[i] += 1
-            add(ev="Kill", i=i, role=role, master=ms)
+            # the outage lasts at least this long (the statement's "pauses"): shorter than failure detection, around it, beyond it
+            lastkill[0] = time.time()
+            outage[0] = (time.time(), self.rnd.choice([0.0, 0.5, 3.0, 8.0, 14.0, 14.0]))
+            add(ev="Kill", i=i, role=role, master=ms, outage=outage[0][1])
             cl.kill_store(i)
-            info["kills"].append({"store": i, "role": role, "was_master": i == ms})
+            info["kills"].append({"store": i, "role": role, "was_master": i == ms, "outage_s": outage[0][1]})
 
         def do_restart(wait):
             if not down:
                 return
+            rest = outage[0][1] - (time.time() - outage[0][0])
+            if rest > 0:
+                time.sleep(rest)
             i = down.pop()
             cl.start_store(i)
             add(ev="Restart", i=i)
@@ -613,7 +624,8 @@ def run(tier, seed):
     vlib.write_evidence(PROP, tier, seed, "model_checking", cov, time.time() - t0, nbad, [
         "etcd/raft and memberlist/serf are trusted; the specification covers what openGemini adds around them",
         "fault schedules are enumerated by TLC on the specification side and sampled (one timing each) on the cluster side",
-        f"a restarted store counts as caught up {GRACE:.0f}s after meta reports it alive with its partition online; queries that overlap "
+        f"a restarted store counts as caught up {GRACE:.0f}s after meta reports it alive with its partition online (and {GRACE_ELECT:.0f}s after "
+        "the latest kill of another store that happened meanwhile: catching up needs a raft leader); queries that overlap "
         "the catch-up window of one store while another one is down must only not invent values",
         "one sequential writer: the order of writes to a cell is the client's program order; a failed attempt is retried with the same batch",
         "a replica-directed read is issued 1s after /modifyRepDBMasterPt moved the master partition",
